@@ -48,6 +48,7 @@ def main() -> int:
     parser.add_argument("--no-selfcheck", action="store_true")
     parser.add_argument("--no-evidence", action="store_true")
     parser.add_argument("--mutants", default=None)
+    parser.add_argument("--replay-dir", default=None)
     args = parser.parse_args()
     seed = args.seed
     if seed is None:
@@ -57,6 +58,16 @@ def main() -> int:
             seed = 0
     _pinned()
     from wgsim import driver  # pylint: disable=import-outside-toplevel
+    if os.environ.get("WGSIM_MUTANT"):
+        from wgsim import mutants  # pylint: disable=import-outside-toplevel
+        try:
+            mutants.apply(os.environ["WGSIM_MUTANT"])
+        except mutants.MutantNotApplicable as exc:
+            print(f"MUTANT-NOT-APPLICABLE {exc}")
+            return 0
+        print(f"SELFTEST running with in-memory mutant {os.environ['WGSIM_MUTANT']}")
+    if args.replay_dir:
+        driver.REPLAY_SUBDIR = args.replay_dir
 
     if args.prop == "selftest":
         from wgsim import selftest  # pylint: disable=import-outside-toplevel
